@@ -7,7 +7,14 @@ method of both readers; R2 (sync) the source is read only in one place, never
 for more than the remaining budget, and the budget is decreased by what was
 obtained; R3 a delimiter is skipped only after it was verified, and delimiter
 lengths are confined to [1, chunk_size]; R4 (async) tell()/eof are functions of
-the cursor fields, `_consumed` grows by the length of every chunk handed out.
+the cursor fields, `_consumed` grows by the length of every chunk handed out;
+R5 (sync) size normalisation.  R6-R8 use a ghost "stream offset of _buffer[0]"
+(class _StreamModel): R6 every `.find(delimiter, ...)` on the buffer / on a
+fragment cut from it starts at or after the cursor; R7 (async, shared with C13
+as its R5) after a failed search of the buffered data an early hand-out leaves
+at least len(delimiter) - 1 bytes in the buffer; R8 (async generators) every
+yield hands out exactly the bytes between the previous cursor position and the
+cursor at the yield, and the cursor keeps its stream position in between.
 """
 
 from __future__ import annotations
